@@ -1166,6 +1166,7 @@ def check(run):
 
     # 3b. sessions: several objects of one class alive in one process
     session_cases = check_sessions(run, g)
+    check_param_streams(run, g)
 
     # 4. the model, inside Coq
     mc = [c for c in cases if modelled(c.expr) and not c.status]
@@ -1454,6 +1455,236 @@ def session_model_verdicts(run, mcases):
                       "C10_session_isolation no longer speaks about this code" % c.expr.cls,
             "case": {"expr": to_source(c.expr), "ops": [list(o) for o in c.ops]}, "observed": c.obs_pretty(), "model": model_trace(run, c)},
             found_input=False)
+
+
+# ================================================================================================
+# PARAMETER STREAMS: the classes whose parameters may themselves be patterns, with VARYING parameter patterns together
+# with rests in the main input.  The reference takes the streams index by index - out[n] = f(in[n], param[n]), a rest in
+# one input never shifts another, the output ends with the shortest input: PDegree(degree, scale),
+# PFilterByKey(pattern, key), PNearestNoteInKey(pattern, key) (model Pat/TonalStreams.v, theorems Props/C10Streams.v,
+# compared inside Coq), PRound(input, digits) and PScaleLinLin(input, a, b, c, d) with pattern arguments (oracle only).
+# ================================================================================================
+STREAM_HEADER = HEADER + "From Isobar Require Import Tonal.Key Pat.TonalStreams.\n"
+KEY_TONICS = [0, 2, 5, 7, 9, 11]
+
+
+def scale_get_ref(sc, d):
+    return 12 * (d // len(sc)) + sc[d % len(sc)]
+
+
+def key_semis_ref(tonic, sc):
+    return sorted((n + tonic) % 12 for n in sc)
+
+
+def nearest_ref(tonic, sc, note):
+    """the in-key note closest to `note`; a tie between a lower and a higher neighbour is not decided by the documentation"""
+    ks = key_semis_ref(tonic, sc)
+    best = [c for c in range(note - 12, note + 13) if c % 12 in ks]
+    dmin = min(abs(c - note) for c in best)
+    cands = [c for c in best if abs(c - note) == dmin]
+    return cands[0] if len(cands) == 1 else AnyOf(cands)
+
+
+class AnyOf:
+    """several values are equally right (two in-key notes at the same distance)"""
+    def __init__(self, c):
+        self.c = c
+
+
+class ParamStream:
+    """a parameter given as a pattern: Python source, the list of its values (None-terminated flag) and the Coq operand"""
+    def __init__(self, src_, vals, done, coq):
+        self.src, self.v, self.done, self.coq = src_, vals, done, coq
+
+
+def scale_coq(name):
+    return "(scale_val (mkScale %s 12))" % zlist(SCALES[name])
+
+
+def key_coq(k):
+    return "(key_val (mkKey %d (mkScale %s 12)))" % (k[0], zlist(SCALES[k[1]]))
+
+
+def param_stream(rng, kind):
+    """kind: 'scale' | 'key'; constant (20 %), PSequence of several (finite or endless), PStutter of such"""
+    def one():
+        if kind == "scale":
+            n = rng.choice(sorted(SCALES))
+            return n, "iso.Scale.%s" % n, scale_coq(n)
+        k = (rng.choice(KEY_TONICS), rng.choice(sorted(SCALES)))
+        return k, "iso.Key(%d, %r)" % k, key_coq(k)
+    if rng.random() < 0.2:
+        v, sr, cq = one()
+        return ParamStream(sr, [v] * H, False, "(EV %s)" % cq)
+    items = [one() for _ in range(rng.randint(2, 4))]
+    rep = rng.choice([None, None, 1, 2, 3])
+    vals = [v for v, _, _ in items]
+    sr = "iso.PSequence([%s]%s)" % (", ".join(x for _, x, _ in items), "" if rep is None else ", %d" % rep)
+    cq = "(ECall CSequence [EL %s; EV (VInt %d)])" % (lst(["(EV %s)" % c for _, _, c in items]), SYS_MAXSIZE if rep is None else rep)
+    out = (vals * (H // len(vals) + 1))[:H] if rep is None else vals * rep
+    done = rep is not None
+    if rng.random() < 0.4:
+        k = rng.randint(2, 4)
+        sr, cq = "iso.PStutter(%s, %d)" % (sr, k), "(ECall CStutter [EP %s; EV (VInt %d)])" % (cq, k)
+        out = [v for v in out for _ in range(k)][:4 * H]
+    return ParamStream(sr, out, done, "(EP %s)" % cq)
+
+
+def check_param_streams(run, g):
+    rng = run.rng
+    thorough = run.tier == "thorough"
+    cases = []
+
+    def main_input(tuples=False):
+        """ints with rests in the middle (a rest that is the last value cannot shift anything)"""
+        k = rng.random()
+        if k < 0.6:
+            xs = [rng.randint(-7, 14) for _ in range(rng.randint(3, 10))]
+            for _ in range(rng.choice([1, 1, 2, 3])):
+                xs[rng.randrange(max(1, len(xs) - 1))] = None
+            if tuples and rng.random() < 0.3:
+                xs[rng.randrange(len(xs))] = (rng.randint(0, 6), rng.randint(0, 6))
+            return E("PSequence", xs, rng.choice([1, 1, 2])) if rng.random() < 0.8 else E("PSequence", xs)
+        if k < 0.8:
+            return E("PSkipIf", E("PSeries", rng.randint(-3, 5), rng.choice([1, 1, 2, -1]), rng.randint(4, 12)),
+                     E("PSequence", [rng.choice([0, 0, 1]) for _ in range(rng.randint(2, 5))]))
+        return g.gen(1, rng.random() < 0.7, "intrest")
+
+    for i in range(2400 if thorough else 240):
+        c = ["PDegree", "PDegree", "PFilterByKey", "PNearestNoteInKey", "PRound", "PScaleLinLin"][i % 6]
+        x = main_input(tuples=(c == "PDegree"))
+        try:
+            ins = ref(x)
+        except Exception:
+            continue
+        model = None
+        if c in ("PDegree", "PFilterByKey", "PNearestNoteInKey"):
+            ps = param_stream(rng, "scale" if c == "PDegree" else "key")
+            source = "iso.%s(%s, %s)" % (c, src(x), ps.src)
+            n = min(len(ins.v), len(ps.v))
+            done = (ins.done and len(ins.v) == n) or (ps.done and len(ps.v) == n)
+
+            def f(v, p, c=c):
+                if v is None:
+                    return None
+                if c == "PDegree":
+                    return tuple(scale_get_ref(SCALES[p], d) for d in v) if isinstance(v, tuple) else scale_get_ref(SCALES[p], v)
+                if c == "PFilterByKey":
+                    return v if v % 12 in key_semis_ref(p[0], SCALES[p[1]]) else None
+                return nearest_ref(p[0], SCALES[p[1]], v)
+            if modelled(x):
+                model = ({"PDegree": "TDegree", "PFilterByKey": "TFilterByKey", "PNearestNoteInKey": "TNearestNoteInKey"}[c], "(EP %s)" % to_coq(x), ps.coq)
+            want_fn = lambda f=f, ins=ins, ps=ps, n=n, done=done: S([f(ins.v[j], ps.v[j]) for j in range(n)], done)
+        elif c == "PRound":
+            ds = [rng.choice([0, 1, 2, -1]) for _ in range(rng.randint(2, 4))]
+            x = E("PMul", x, rng.choice([0.5, 0.25, 1.5, 2.5]))
+            try:
+                ins = ref(x)
+            except Exception:
+                continue
+            source = "iso.PRound(%s, iso.PSequence(%r))" % (src(x), ds)
+            n, done = len(ins.v), ins.done
+            want_fn = lambda ins=ins, ds=ds, n=n, done=done: S([None if ins.v[j] is None else round(ins.v[j], ds[j % len(ds)]) for j in range(n)], done)
+        else:
+            x = E("PSequence", [rng.randint(-4, 12) for _ in range(rng.randint(3, 8))], rng.choice([1, 2]))
+            ins = ref(x)
+            lo = [rng.randint(-4, 0) for _ in range(rng.randint(2, 3))]
+            hi = [rng.randint(4, 12) for _ in range(rng.randint(2, 4))]
+            source = "iso.PScaleLinLin(%s, iso.PSequence(%r), iso.PSequence(%r), 0, iso.PSequence([1, 10]))" % (src(x), lo, hi)
+            n, done = len(ins.v), ins.done
+            want_fn = lambda ins=ins, lo=lo, hi=hi, n=n, done=done: S(
+                [((ins.v[j] - lo[j % len(lo)]) / (hi[j % len(hi)] - lo[j % len(lo)])) * ([1, 10][j % 2] - 0) + 0 for j in range(n)], done)
+        wrap = rng.random()
+        post = None
+        if wrap < 0.15:
+            source, post = "iso.PStutter(%s, 2)" % source, (lambda s_: S([v for v in s_.v for _ in range(2)], s_.done))
+        elif wrap < 0.25:
+            source, post = "iso.PSubsequence(%s, 1, 6)" % source, (lambda s_: S(s_.v[1:7], True) if (len(s_.v) >= 7 or s_.done) else None)
+        elif wrap < 0.32:
+            source, post = "iso.PCollapse(%s)" % source, (lambda s_: S([v for v in s_.v if v is not None], s_.done) if s_.done else None)
+        if post is not None:
+            model = None
+        cc = Case(Raw(source), [("next", 0)] * N_NEXT, "param-stream", {"cls": c, "want": want_fn, "post": post, "model": model})
+        cases.append(cc)
+    run_src_cases(run, cases)
+    terms, owners, reported = [], [], set()
+    for c in cases:
+        run.count(); run.dist("stream.parameter-streams"); run.dist("paramstream." + c.meta["cls"])
+        if c.status:
+            run.discard("paramstream: impl-" + c.status); continue
+        try:
+            s_ = c.meta["want"]()
+            if c.meta["post"] is not None:
+                s_ = c.meta["post"](s_)
+                if s_ is None:
+                    raise CannotJudge("wrapper beyond the horizon")
+        except CannotJudge as e:
+            run.discard("paramstream oracle: " + " ".join(str(e).split(" ")[:3])); continue
+        except (ZeroDivisionError, OverflowError, TypeError, IndexError, KeyError, ValueError) as e:
+            run.discard("paramstream oracle: reference raised %s" % type(e).__name__); continue
+        run.cov["oracle_evaluations"] += len(c.obs)
+        got = c.obs[1:]
+        want = [{canon(x) for x in v.c} if isinstance(v, AnyOf) else canon(v) for v in s_.v[:len(got)]]
+        if s_.done and len(want) < len(got):
+            want.append("StopIteration")
+        dev = None
+        if obs_canon(c.obs[0]) != "None":
+            dev = (-1, "the constructor succeeds", obs_canon(c.obs[0]))
+        else:
+            for j, w in enumerate(want):
+                if (obs_canon(got[j]) not in w) if isinstance(w, set) else (obs_canon(got[j]) != w):
+                    dev = (j, " or ".join(sorted(w)) if isinstance(w, set) else w, obs_canon(got[j]))
+                    break
+        if len([o for o in got if isinstance(o, dict) and "y" in o]) >= 2:
+            run.nontrivial(c.expr.s)
+        if dev is not None:
+            sig = {"kind": "reference", "class": c.meta["cls"], "how": "raise" if dev[2].startswith("raise") else "stop" if dev[2] == "StopIteration" else "value",
+                   "stream": "parameter-streams"}
+            key = json.dumps(sig, sort_keys=True)
+            if key not in reported and len(reported) < 4:
+                reported.add(key)
+                run.violation(sig, {
+                    "case": {"expr": c.expr.s, "n": N_NEXT},
+                    "expected": "output %d = %s   (reference list: %s%s)" % (dev[0], dev[1], [canon(v.c[0]) + "|.." if isinstance(v, AnyOf) else canon(v) for v in s_.v[:dev[0] + 3]], " then StopIteration" if s_.done else " ..."),
+                    "observed": dev[2], "observed_outputs": c.obs_pretty()[:dev[0] + 4],
+                    "python": snippet(c.expr, dev[0] + 1)})
+            continue
+        if c.meta["model"]:
+            t, ea, eb = c.meta["model"]
+            n = min(len(got), 40)
+            try:
+                terms.append("tonal_check Val.binop LMAX FUEL %d %s %s %s %s" % (n, t, ea, eb, lst([obs_coq(o) for o in got[:n]])))
+                owners.append(c)
+            except Unrepresentable:
+                run.discard("paramstream model: unrepresentable")
+    codes = []
+    chunk = 40
+
+    def one(i0):
+        srcc = STREAM_HEADER + "\nDefinition results : list nat := [\n" + ";\n".join(terms[i0:i0 + chunk]) + "\n].\nEval vm_compute in results.\n"
+        return parse_nat_list(run.coqc_text("pstream%d" % i0, srcc, timeout=300))
+    with ThreadPoolExecutor(max_workers=8) as ex:
+        for r in ex.map(one, range(0, len(terms), chunk)):
+            codes.extend(r)
+    run.cov["parameter_stream_model_comparisons"] = len(terms)
+    bad = False
+    for c, k in zip(owners, codes):
+        if k == 0:
+            run.cov["traces_validated_against_impl"] += 1
+        elif k == 2:
+            run.discard("paramstream model: Inexact/OutOfFuel")
+        elif not bad:
+            bad = True
+            run.violation({"kind": "correspondence", "class": c.meta["cls"], "model": "Pat/TonalStreams.v"}, {
+                "broken": "correspondence Pat/TonalStreams.v (tstep: one value of each input per call) vs the implementation on %s over a parameter "
+                          "stream: the theorems of Props/C10Streams.v no longer speak about this code" % c.meta["cls"],
+                "case": {"expr": c.expr.s, "n": N_NEXT}, "observed": c.obs_pretty()[:20]}, found_input=False)
+
+
+META["text"] += (" Classes whose parameters may be patterns are exercised with VARYING parameter patterns and rests in the main input against a reference "
+                 "that takes the streams index by index (check_param_streams); for PDegree / PFilterByKey / PNearestNoteInKey over arbitrary operand patterns "
+                 "the pointwise closed form is proved (Pat/TonalStreams.v, Props/C10Streams.v: C10_tonal_parameter_streams, C10_tonal_rest_does_not_shift) and "
+                 "compared with the implementation inside Coq.")
 
 
 # ---- Euclidean rhythms -----------------------------------------------------------------------------------
